@@ -105,6 +105,9 @@ func main() {
 		if i%2 == 1 {
 			cfg = "core+shadow" // same constructs, same-named typedefs in several files
 		}
+		if i%3 == 2 {
+			cfg += "+argmods" // method arguments with optional / required modifiers and defaults
+		}
 		specs = append(specs, progSpec{Sub: fmt.Sprintf("p%d", i), Seed: rng.Int63(), Cfg: cfg})
 	}
 	var batches [][]progSpec
